@@ -1,8 +1,13 @@
-(* C01 — IR preserves program semantics (partial): statements about the executable IR semantics.
-   ONLY statements closed by [exact]; each followed by Print Assumptions. *)
-From Coq Require Import List ZArith NArith PArith Bool.
+(* C01 — IR preserves program semantics (PARTIAL): statements about the executable IR semantics
+   Model/C01_IRSem.v ("the documented meaning of each instruction", go/ir/ssa.go).
+   ONLY statements closed by [exact]; each followed by Print Assumptions.
+
+   What is NOT proved: that the IR built by go/ir (builder.go, lift.go, blockopt.go, ...) for a Go
+   source program behaves like the program compiled by the Go toolchain.  That statement is kept below as
+   [ir_refines_source_full_statement]; it is checked differentially on every run of ./check C01. *)
+From Coq Require Import List ZArith NArith PArith Bool FMapPositive.
 Import ListNotations.
-Require Import Verif.Model.C01_IRSem Verif.Proofs.C01.
+Require Import Verif.Model.C01_IRSem Verif.Model.C01_SSA Verif.Model.C01_Check Verif.Proofs.C01 Verif.Proofs.C01_SSA.
 
 (* More fuel never changes an outcome other than OutOfFuel. *)
 Theorem irsem_fuel_monotone :
@@ -15,3 +20,68 @@ Theorem irsem_deterministic :
   forall p st o1 o2, terminates_with p st o1 -> terminates_with p st o2 -> o1 = o2.
 Proof. exact terminates_deterministic. Qed.
 Print Assumptions irsem_deterministic.
+
+(* Phis of a block are parallel copies: along an edge each phi receives the value its operand for that
+   edge has in the environment BEFORE the transfer (also when that operand is another phi of the same
+   block), the rest of the block is entered after the phis, and no other register changes. *)
+Theorem phi_parallel :
+  forall fn fr succ fr',
+  goto_succ fn fr succ = inl fr' ->
+  exists tb k ps rest,
+    get_block fn (f_blk fr') = Some tb /\ split_phis (b_code tb) = (ps, rest) /\ f_code fr' = rest /\
+    index_of (f_blk fr) (b_preds tb) 0 = Some k /\
+    (NoDup (map fst ps) ->
+       (forall d es, In (d, es) ps ->
+          exists o v, nthN es k = Some o /\ eval_operand (f_env fr) o = inl v /\ PM.find d (f_env fr') = Some v) /\
+       (forall r, ~ In r (map fst ps) -> PM.find r (f_env fr') = PM.find r (f_env fr))).
+Proof. exact phi_parallel_thm. Qed.
+Print Assumptions phi_parallel.
+
+(* SSA environment safety.  If every function of the program passes the definitions-before-uses
+   validator (Model/C01_SSA.v: a certificate of registers assigned on all paths, checked locally per
+   instruction and per edge), then NO execution -- any entry function, any arguments, any heap, any fuel,
+   through calls, closures, deferred calls, panics and recovery -- ever reads an unassigned register. *)
+Theorem wf_no_undef :
+  forall n p f args h, ssa_ok_prog p = true -> forall r, exec n p f args h <> Stuck (EUndef r).
+Proof. exact exec_no_undef. Qed.
+Print Assumptions wf_no_undef.
+
+(* The invariant behind it is preserved by every single step of the machine. *)
+Theorem wf_step_invariant :
+  forall p st, ssa_ok_prog p = true -> stack_inv p st ->
+  match step p st with
+  | Next st' => stack_inv p st'
+  | Final (Stuck (EUndef _)) => False
+  | Final _ => True
+  end.
+Proof. exact step_inv. Qed.
+Print Assumptions wf_step_invariant.
+
+(* The step counter used by the correspondence check does not change outcomes. *)
+Theorem exec_steps_faithful :
+  forall n p f args h, fst (exec_steps n p f args h) = exec n p f args h.
+Proof. exact exec_steps_fst. Qed.
+Print Assumptions exec_steps_faithful.
+
+(* ---- the full statement of C01 (NOT proved; differential) ----
+   [source]: Go programs; [go_behaviour s f ins o]: the program compiled by the Go toolchain, run on
+   function f with inputs ins, shows observation o (results / panic, extern-call trace, final globals and
+   pointer arguments); [build s m]: the serialised IR go/ir builds for s in mode m (naive / lifted,
+   debug on / off).  The property: whenever the model execution of the built IR terminates, the
+   observation it yields is the one the compiled program shows. *)
+Section FullStatement.
+  Variable source : Type.
+  Variable mode : Type.
+  Variable go_behaviour : source -> N -> list input -> expect -> Prop.
+  Variable build : source -> mode -> program * N * list value.   (* program, index of init, zero values of the globals *)
+
+  Definition ir_refines_source_full_statement : Prop :=
+    forall (s : source) (m : mode) (f : N) (ins : list input) (o : expect) (fuel : nat) (h0 : heap),
+      go_behaviour s f ins o ->
+      let '(p, initf, zeros) := build s m in
+      init_heap fuel p initf zeros = inl h0 ->
+      match fst (run_case fuel p h0 (length zeros) (mkCase f ins o)) with
+      | VOk | VFuel => True            (* agrees, or not enough fuel to tell *)
+      | _ => False
+      end.
+End FullStatement.
